@@ -188,18 +188,18 @@ POOL = [
 ]
 
 
-def two_files_api(b0: bool, b1: bool, b2: bool, b3: bool, b4: bool, b5: bool, b6: bool, b7: bool, b8: bool) -> bool:
+def two_files_api(b0: bool, b1: bool, b2: bool, b3: bool, b4: bool, b5: bool, b6: bool, b7: bool, b8: bool, b9: bool) -> bool:
     """
     post: _
     """
     from vf.stubs import untraced, bits_index, decode_index
-    d = decode_index(bits_index(b0, b1, b2, b3, b4, b5, b6, b7, b8), [6, 6, 6, 2])
+    d = decode_index(bits_index(b0, b1, b2, b3, b4, b5, b6, b7, b8, b9), [6, 6, 6, 2, 2])
     if d is None:
         return True
-    return untraced(_two_files_api_impl, d[0], d[1], d[2], bool(d[3]))
+    return untraced(_two_files_api_impl, d[0], d[1], d[2], bool(d[3]), bool(d[4]))
 
 
-def _two_files_api_impl(i, j, k, rg):
+def _two_files_api_impl(i, j, k, rg, keep):
     # one in-place run over three files with the real do_minify and the real minify: afterwards every file holds its
     # original bytes or exactly what the API returns for those bytes and the same options in a fresh call
     import python_minifier
@@ -211,10 +211,13 @@ def _two_files_api_impl(i, j, k, rg):
     import sys as real_sys
     from vf.stubs import patched
     argv = ['pyminify', 'd', 'three.py', '--in-place'] + (['--rename-globals'] if rg else [])
+    if keep:
+        argv += ['--preserve-globals', 'shared_name, result_value', '--preserve-locals', 'long_local,T']
     with patched(real_sys, 'argv', argv), env.installed() as m:
         m.main()
     for n in range(3):
-        api = python_minifier.minify(src[n], filename=paths[n], rename_globals=rg, preserve_globals=[], preserve_locals=[],
+        api = python_minifier.minify(src[n], filename=paths[n], rename_globals=rg,
+                                     preserve_globals=['shared_name', 'result_value'] if keep else [], preserve_locals=['long_local', 'T'] if keep else [],
                                      remove_annotations=RemoveAnnotationsOptions()).encode('utf-8')
         want = api if len(api) <= len(src[n]) else src[n]
         if env.fs[paths[n]] != want:
@@ -306,7 +309,7 @@ def obligations(tier, seed):
              bounds='one symbolic name |f| <= %d between a.py and c.pyw; failure position 0-3, 4 failure kinds, 2^3 benefit patterns, optional direct argument' % n,
              public_replay='public_failure'),
         dict(name='C15.inplace_tree.twin', fn='inplace_tree_twin', shards=[[]], timeout=t, expect='refuted', bounds='reachability twin'),
-        dict(name='C15.two_files_api', fn='two_files_api', shards=[['b8 == %s' % b] for b in (True, False)], timeout=t,
-             bounds='three files drawn from a pool of 6 sources (literal __all__, type parameters, plain, not-beneficial), real minify, rename_globals on/off'),
+        dict(name='C15.two_files_api', fn='two_files_api', shards=[['b9 == %s' % b] for b in (True, False)], timeout=t,
+             bounds='three files drawn from a pool of 6 sources (literal __all__, type parameters, plain, not-beneficial), real minify, rename_globals on/off, with and without --preserve-globals/--preserve-locals lists'),
         dict(name='C15.output_mode_single', fn='output_mode_single', shards=[[]], timeout=t, bounds='--output with one source'),
     ]
